@@ -71,7 +71,10 @@ package state
 //@   at State.undoPayFee assert undo_guarded: ledgerPrune || undoBlk.Height > curIrreversibleBlockHeight
 //@   at State.updateLatestBlockid assert undo_guarded: ledgerPrune || undoBlk.Height > curIrreversibleBlockHeight
 //@   at Meta.UpdateNextIrreversibleBlockHeightForPrune assert prune_only: ledgerPrune
-//@   loop 1 invariant [C17] published_height_follows_every_block: old(t.meta.Meta.IrreversibleBlockHeight) == old(t.meta.MetaTmp.IrreversibleBlockHeight) ==> t.meta.Meta.IrreversibleBlockHeight == t.meta.MetaTmp.IrreversibleBlockHeight
+// (Only a pruning walk moves the height while undoing, and downwards: a published height that
+// lags is the more careful one, so this is no finality matter - but a walk that stops early
+// must not leave a node reporting another height than the one on disk, C05.)
+//@   loop 1 invariant [C05] published_height_follows_every_block: old(t.meta.Meta.IrreversibleBlockHeight) == old(t.meta.MetaTmp.IrreversibleBlockHeight) ==> t.meta.Meta.IrreversibleBlockHeight == t.meta.MetaTmp.IrreversibleBlockHeight
 // C01: one batch per undone block; every transaction of the block is undone in that
 // batch and the pointer moves, in the same batch, to the block's parent.
 //@   local batch kvdb.Batch
